@@ -76,6 +76,10 @@ pub proof fn lemma_fpow_one<F: Field>(x: F) ensures fpow(x, 1) == x {
     F::mul_one(x);
 }
 
+// ASSUMED std specification (vstd has none): cloning a slice of plain ids/values yields the same sequence
+pub assume_specification<T: Clone> [<[T]>::to_vec](s: &[T]) -> (r: Vec<T>)
+    ensures r@ == s@;
+
 // =====================================================================================================
 // Circuit builder interface for gadget units.
 //   Ghost state = the value of every allocated expression under ONE arbitrary, fixed assignment of the
